@@ -14,6 +14,7 @@ and `_process_announcement`, tied to the code by `harness/props/c34.py`.
 | a client accepts an announcement only if its signature verifies | `accepted_implies_verified_and_attributed` (every stored and every delivered announcement; the signature verifies for exactly the message bytes that decode to it — seed C34-a) |
 | and attributes it to the key that signed it | same theorem (filed under the verifying key and the announcement's own service name), `accepted_implies_signed_by_key_owner` (under `Unforgeable`), `respelling_is_irrelevant` (identity is the verifying key, not the spelling of the key string — seed C34-c) |
 | for each (service, key) it never replaces a stored announcement with one carrying an equal or lower sequence number, whatever stream it receives | `replace_requires_higher_seqnum` (one step, any state: also missing / non-integer new seqnums cannot replace a numbered one — seed C34-b), `seqnum_monotone` (any stream of batches), `seqnum_rule_per_verifying_key` (whatever spellings the stream uses) |
+| (table size) the rule holds however many (service, key) pairs the client has seen | the same theorems: `State.store` is an unbounded list, nothing is ever evicted (`processAnn` only adds or replaces), so `seqnum_monotone` covers streams with any number of distinct keys; an implementation that forgets entries (seed C34-e, 256) disagrees with the model on the final table and is flagged by the monitor on the replay it then accepts — corpus history with 2 victims + 257 one-shot keys in `harness/props/c34.py` |
 | a bad announcement does not stop the others in the same batch | `bad_one_does_not_stop_batch`, `batch_is_sequential` — for the repaired loop (`fixes/C34-batch-except.diff`, committed in /repo) |
 | quantifier: seeded streams from several keys: valid, forged, replayed, reordered, missing / non-integer seqnums | theorems are over arbitrary lists of batches of arbitrary wire tuples |
 
